@@ -16,9 +16,9 @@ if not os.path.isdir(WT):
     sh('git -C /repo worktree add -q --detach %s HEAD' % WT)
 sh('git checkout -q --detach $(git -C /repo rev-parse HEAD) && git checkout -- . && git clean -fdq -e target', cwd=WT)
 def tests(label):
-    r = sh('cargo test --offline 2>&1 | grep -E "^test result|FAILED|failed" | head -5', cwd=WT)
-    m = re.search(r'(\d+) passed; (\d+) failed', r.stdout)
-    return (int(m.group(1)), int(m.group(2))) if m else (None, r.stdout[-300:])
+    r = sh('cargo test --offline --no-fail-fast 2>&1 | grep -E "^test result|FAILED|failed" | head -12', cwd=WT)
+    ms = re.findall(r'(\d+) passed; (\d+) failed', r.stdout)
+    return (sum(int(a) for a, _ in ms), sum(int(b) for _, b in ms)) if ms else (None, r.stdout[-300:])
 conf = {}
 patch, demo = os.path.join(src, 'patch.diff'), os.path.join(src, 'demo.diff')
 a = sh('git apply %s' % patch, cwd=WT)
@@ -31,7 +31,7 @@ sh('git checkout -- . && git clean -fdq -e target', cwd=WT)
 sh('git apply %s' % demo, cwd=WT)
 conf['demo_only'] = tests('demo')
 sh('git checkout -- . && git clean -fdq -e target', cwd=WT)
-ok = conf['patch_only'][1] == 0 and conf['patch_only'][0] == 226 and isinstance(conf['patch_plus_demo'][1], int) and conf['patch_plus_demo'][1] >= 1 and conf['demo_only'][1] == 0
+ok = conf['patch_only'][1] == 0 and conf['patch_only'][0] >= 226 and isinstance(conf['patch_plus_demo'][1], int) and conf['patch_plus_demo'][1] >= 1 and conf['demo_only'][1] == 0
 print('confirmation:', conf, 'OK' if ok else 'NOT CONFIRMED')
 results = {}
 if ok:
